@@ -121,7 +121,7 @@ func (f *Frame) call(in ssa.Instruction, cc *ssa.CallCommon, st *State) []Term {
 	switch name {
 	case "__forall", "__exists":
 		return f.quantifier(name == "__forall", cc, st)
-	case "__called", "__failed":
+	case "__called", "__failed", "__result":
 		k, ok := cc.Args[0].(*ssa.Const)
 		if !ok {
 			c.unsupported(f, name+" needs a string literal")
@@ -129,6 +129,10 @@ func (f *Frame) call(in ssa.Instruction, cc *ssa.CallCommon, st *State) []Term {
 		key := strings.TrimPrefix(name, "__") + ":" + constant.StringVal(k.Value)
 		if v, ok := st.Ghost[key]; ok {
 			return []Term{v}
+		}
+		if name == "__result" {
+			// unknown unless the call was recorded on this path
+			return []Term{c.fresh("ghostres", SInt)}
 		}
 		if st.GhostUnknown {
 			v := c.fresh("ghostunk", SBool)
@@ -963,6 +967,9 @@ func (f *Frame) recordCall(st *State, cc *ssa.CallCommon, res []Term, names ...s
 	for _, n := range names {
 		st.Ghost["called:"+n] = TTrue
 		st.Ghost["failed:"+n] = failed
+		if len(res) >= 1 && res[0].Sort == SInt {
+			st.Ghost["result:"+n] = res[0]
+		}
 	}
 }
 
